@@ -61,7 +61,8 @@ func heuristicFreshness(h http.Header, date time.Time) time.Duration {
 		return 0
 	}
 	delta := date.Sub(lastMod)
-	return time.Duration(float64(delta) * 0.1).Round(time.Second)
+	// At most 10% (RFC 9111 §4.2.2): whole seconds, rounded down.
+	return (delta / 10).Truncate(time.Second)
 }
 
 // calculateCurrentAge implements RFC9111 §4.2.3 for calculating the current age of a cached response
